@@ -857,3 +857,18 @@ Example ex_run :
   = Some (NDir [(n_sp, NDir [(n_q, NDir []); (n_sp, NDir []); (n_ty, NDir []); (n_250, NDir [])])],
           [n_sp; n_ty]).
 Proof. vm_compute. reflexivity. Qed.
+
+(* a name equal to its ancestors' names: working directory /n/n, the relative name n (the node n/n/n) *)
+Definition ex_w_nested : world :=
+  {| w_s := {| s_user := Some 0%nat; s_logged := true; s_cwd := [n_q; n_q]; s_rnfr := None; s_rest := 0;
+               s_passive := false; s_data := false; s_ended := false |};
+     w_fs := NDir [(n_q, NDir [(n_q, NDir [])])]; w_log := [] |}.
+
+Example ex_same_name_nested :
+  ready 0 ex_w_nested [n_q; n_q] /\ valid_path (mkp 0 [n_q]) /\ target [n_q; n_q] (mkp 0 [n_q]) = [n_q; n_q] ++ [n_q] /\
+  (forall q, rw ex_user ([n_q; n_q] ++ q)) /\ Forall valid_name [n_q; n_q] /\
+  lookup [n_q; n_q] (w_fs ex_w_nested) = Some (NDir []) /\ assoc_t n_q ([] : list (text * node)) = None.
+Proof.
+  repeat (first [split | apply Forall_cons | apply Forall_nil]);
+    try discriminate; try reflexivity; try (intro q; apply ex_rw); try (left; reflexivity).
+Qed.
